@@ -413,7 +413,7 @@ impl SeqScenario for C04 {
 
 pub fn grid(thorough: bool) -> Vec<CbCfg> {
     let mut v = vec![];
-    let sizes: &[usize] = if thorough { &[1, 2, 3] } else { &[2] };
+    let sizes: &[usize] = if thorough { &[1, 2, 3] } else { &[1, 2] };
     let thresholds: &[f64] = if thorough { &[0.0, 0.5, 1.0] } else { &[0.5, 1.0] };
     let slows: &[(Option<u64>, f64)] = &[(None, 1.0), (Some(SLOW_THR), 0.5), (Some(SLOW_THR), 1.0)];
     for time_based in [false, true] {
